@@ -198,7 +198,15 @@ impl Pca<f64> {
         &self,
         prediction: ArrayBase<ndarray::OwnedRepr<f64>, ndarray::Dim<[usize; 2]>>,
     ) -> ArrayBase<ndarray::OwnedRepr<f64>, ndarray::Dim<[usize; 2]>> {
-        prediction.dot(&self.embedding) + &self.mean
+        // the rows of the embedding are orthogonal but, after whitening, not of unit length:
+        // dividing each row by its squared norm undoes `predict` on the component subspace
+        // in both cases
+        let mut back = self.embedding.clone();
+        for mut row in back.axis_iter_mut(Axis(0)) {
+            let norm_sq = row.dot(&row);
+            row /= norm_sq;
+        }
+        prediction.dot(&back) + &self.mean
     }
 }
 
